@@ -27,6 +27,7 @@ type table struct {
 	key     any // string or int
 	size    int
 	columns []*table
+	kind    byte // arrayNode or mapNode once the first row is seen
 }
 
 func (n *node) subKind() (kind byte) {
@@ -46,13 +47,17 @@ func (n *node) genTables(lazy bool) *table {
 	case arrayNode:
 		t := table{}
 		for _, m := range n.members {
-			m.updateArrayTable(&t, lazy)
+			if !m.updateArrayTable(&t, lazy) {
+				return nil
+			}
 		}
 		return &t
 	case mapNode:
 		t := table{}
 		for _, m := range n.members {
-			m.updateMapTable(&t, lazy)
+			if !m.updateMapTable(&t, lazy) {
+				return nil
+			}
 		}
 		return &t
 	default:
@@ -60,7 +65,14 @@ func (n *node) genTables(lazy bool) *table {
 	}
 }
 
-func (n *node) updateArrayTable(t *table, lazy bool) {
+// updateArrayTable returns false if the rows can not be laid out as a table
+// because a column holds an array in one row and a map in another.
+func (n *node) updateArrayTable(t *table, lazy bool) bool {
+	if t.kind == 0 {
+		t.kind = arrayNode
+	} else if t.kind != arrayNode {
+		return false
+	}
 	for i, m := range n.members {
 		var col *table
 		for _, s := range t.columns {
@@ -78,9 +90,13 @@ func (n *node) updateArrayTable(t *table, lazy bool) {
 				col.size = m.size
 			}
 		case arrayNode:
-			m.updateArrayTable(col, lazy)
+			if !m.updateArrayTable(col, lazy) {
+				return false
+			}
 		case mapNode:
-			m.updateMapTable(col, lazy)
+			if !m.updateMapTable(col, lazy) {
+				return false
+			}
 		}
 	}
 	sort.Slice(t.columns, func(i, j int) bool {
@@ -97,9 +113,15 @@ func (n *node) updateArrayTable(t *table, lazy bool) {
 	} else {
 		t.size += len(t.columns) * 2
 	}
+	return true
 }
 
-func (n *node) updateMapTable(t *table, lazy bool) {
+func (n *node) updateMapTable(t *table, lazy bool) bool {
+	if t.kind == 0 {
+		t.kind = mapNode
+	} else if t.kind != mapNode {
+		return false
+	}
 	for _, m := range n.members {
 		k := string(m.key)
 		var col *table
@@ -118,9 +140,13 @@ func (n *node) updateMapTable(t *table, lazy bool) {
 				col.size = m.size
 			}
 		case arrayNode:
-			m.updateArrayTable(col, lazy)
+			if !m.updateArrayTable(col, lazy) {
+				return false
+			}
 		case mapNode:
-			m.updateMapTable(col, lazy)
+			if !m.updateMapTable(col, lazy) {
+				return false
+			}
 		}
 	}
 	sort.Slice(t.columns, func(i, j int) bool {
@@ -138,4 +164,5 @@ func (n *node) updateMapTable(t *table, lazy bool) {
 	} else {
 		t.size += len(t.columns) * 4
 	}
+	return true
 }
